@@ -1492,6 +1492,7 @@ class FuncEmitter:
                     guarded.discard(n)
                     changed = True
         self.spec_shift = shifts & guarded
+        self.used_locals = set(uses)
         # emit
         for bn, ins in parsed:
             self.cur_block = bn
@@ -1515,7 +1516,8 @@ class FuncEmitter:
         out = [hdr]
         # the caller's non-null contract (references, this, sret) as an explicit test: filters the
         # parameter's value set inside the callee
-        out += ['  VP_NONNULL(%s);' % self.lname(n) for n in self.entry_nn]
+        # (a nonnull parameter the body never uses may legitimately receive undef after dead-argument elimination)
+        out += ['  VP_NONNULL(%s);' % self.lname(n) for n in self.entry_nn if n in self.used_locals]
         out += pre
         out += self.decls
         out += ['  ' + c for c in self.code]
